@@ -70,9 +70,11 @@ class K:
 
 
 def delegating_classes():
-    """the SpatialVector classes, which have their own __getitem__ over data[i] (spatialvector.py:129): tied on the slice / index grid only"""
-    return [K(c.__name__, c, (lambda c: lambda t: c([t, 0, 0, 0, 0, 0]))(c), lambda a: a[0], 6, False, lambda: SE3(), lambda: Twist3())
-            for c in (SpatialVelocity, SpatialAcceleration, SpatialForce, SpatialMomentum)]
+    """the SpatialVector classes: their own __init__ (copy constructor, list handling) and __getitem__ (spatialvector.py:64-133)"""
+    cs = (SpatialVelocity, SpatialAcceleration, SpatialForce, SpatialMomentum)
+    return [K(c.__name__, c, (lambda c: lambda t: c([t, 0, 0, 0, 0, 0]))(c), lambda a: a[0], 6, False,
+              (lambda d: lambda: d([1, 2, 3, 4, 5, 6]))(cs[(i + 1) % 4]), lambda: Twist3())
+            for i, c in enumerate(cs)]
 
 
 def classes():
@@ -98,9 +100,9 @@ def classes():
 EXC = {'IndexError': 1, 'ValueError': 2, 'TypeError': 3, 'AssertionError': 4}
 # root causes the model still mirrors.  (Repaired in /repo and therefore NOT listed, so that a regression is a VIOLATION:
 # slice index arithmetic -- fix 639aa3a; extend by a single-valued object appending matrix rows -- fix e8a8671;
-# empty slice of the SpatialVector classes raising IndexError -- fix 40af48b.)
-KEYS = {2: 'oracle:construct-from-empty-list:IndexError',
-        4: 'oracle:single-value-required:empty-object-stored-as-element'}
+# empty slice of the SpatialVector classes raising IndexError -- fix 40af48b;
+# construction from an empty list raising IndexError -- fix 1105ad0.)
+KEYS = {4: 'oracle:single-value-required:empty-object-stored-as-element'}
 OPNAME = {'G': 'getitem', 'S': 'getitem-slice', 'I': 'iter', 'L': 'len', 'T': 'setitem', 'D': 'delitem', 'X': 'delitem-slice',
           'A': 'append', 'E': 'extend', 'N': 'insert', 'P': 'pop', 'R': 'reverse', 'C': 'clear', 'CI': 'ctor-from-iteration',
           'CC': 'copy-ctor', 'CF': 'ctor-from-list', 'AL': 'Alloc', 'EM': 'Empty'}
@@ -782,14 +784,14 @@ def run(ctx):
                 "were compared (exhaustive slice/index grid, every short history, random histories) plus constructor probes; "
                 "distinct by (class, start length, operation sequence)")
     ctx.trusted_extra = ["hand-written model theories/Model/C10_SMList.v, tied by the T-seq correspondence of props/C10.py on every run "
-                         "(exhaustive grid + exhaustive short histories + random histories, all 8 classes)",
+                         "(exhaustive grid + exhaustive short histories + random histories, all 12 classes)",
                          "props/C10.py: tagging of elements (SE3.Tx(tag) etc.), encoders, the OCaml driver text, the Python list reference"]
     ctx.prove('theories/Props/C10.v')
-    ks = classes()
+    ks = classes() + delegating_classes()
     model = Model(ctx)
     cmp = Cmp(ctx)
     with ctx.timed('grid'):
-        grid(ctx, model, cmp, ks + delegating_classes())
+        grid(ctx, model, cmp, ks)
     with ctx.timed('kernel-crosscheck'):
         kernel_crosscheck(ctx, model, ks, ctx.n(40, 150))
     with ctx.timed('exhaustive'):
@@ -812,7 +814,7 @@ def replay(ctx, path):
         from lib.main import generic_replay
         import props.C10 as me
         return generic_replay(ctx, me, path)
-    k = {c.name: c for c in classes()}[rp['class']]
+    k = {c.name: c for c in classes() + delegating_classes()}[rp['class']]
     ops = [_unjs(o) for o in rp['ops']]
     n0 = rp['start_length']
     model = Model(ctx)
